@@ -37,13 +37,29 @@ package bytes
 //@ func (ib *inmemBtsBuf) Size() int64
 //@   props C17
 //@   requires ib != nil
-//@   ensures r0 == len(*ib)
+//@   ensures r0 == len(*ib) && r0 >= 0
 
 //@ func (ib *inmemBtsBuf) Buffer(offs int64, size int) ([]byte, error)
 //@   props C17
 //@   requires ib != nil && 0 <= size && size <= 1<<46
 //@   ensures *ib != nil && 0 <= offs && offs < len(*ib) ==> r1 == nil && sameArray(r0, *ib) && off(r0) == off(*ib) + offs && len(r0) == min(size, len(*ib) - offs)
 //@   ensures *ib == nil || !(0 <= offs && offs < len(*ib)) ==> r1 != nil && r0 == nil
+
+// growing keeps every byte and adds zero bytes; a closed store stays closed
+//@ func (ib *inmemBtsBuf) Grow(newSize int64) error
+//@   props C17
+//@   requires ib != nil && newSize <= 1<<46
+//@   modifies *ib
+//@   ensures old(*ib) == nil ==> r0 != nil && *ib == nil
+//@   ensures r0 == nil ==> len(*ib) == newSize && newSize >= old(len(*ib))
+//@   ensures r0 == nil ==> forall(i, 0, old(len(*ib)), (*ib)[i] == byteAt(old(arr(*ib)), old(off(*ib)) + i)) && fresh(*ib)
+//@   ensures r0 == nil ==> forall(i, old(len(*ib)), len(*ib), (*ib)[i] == 0)
+//@   ensures r0 != nil ==> *ib == old(*ib)
+//@ func (ib *inmemBtsBuf) Close() error
+//@   props C17
+//@   requires ib != nil
+//@   modifies *ib
+//@   ensures *ib == nil && (r0 == nil) == (old(*ib) != nil)
 
 //@ func NewInMemBytes(size int) *inmemBtsBuf
 //@   props C17
